@@ -619,6 +619,8 @@ class FakeGrbModel:
 
     def __init__(self, c, status):
         self.c, self.Status, self.Runtime = c, status, 0.0
+        # an incumbent exists at OPTIMAL and (as observed / documented) at UNBOUNDED MILPs, SUBOPTIMAL and at the limit statuses
+        self.SolCount = 0 if status in (3, 4) else 1
         self.mvars, self.mcons, self.qcons, self.obj, self.params, self.optimized = [], [], [], None, {}, 0
         self.mrecs, self.X = [], None
 
@@ -686,7 +688,7 @@ class FakeGp:
         raise HarnessError(f"{type(self).__name__} does not model '{name}'")
 
     class GRB:
-        OPTIMAL, INFEASIBLE, INF_OR_UNBD, UNBOUNDED, SUBOPTIMAL = 2, 3, 4, 5, 13
+        OPTIMAL, INFEASIBLE, INF_OR_UNBD, UNBOUNDED, SUBOPTIMAL, TIME_LIMIT, SOLUTION_LIMIT = 2, 3, 4, 5, 13, 9, 10
 
     def __init__(self, c, status):
         self.c, self.status, self.made = c, status, []
@@ -716,7 +718,7 @@ def gurobi_cases():
                 (2, 2, (0, 0), ("lb", "box"), None, False, (1,)), (2, 2, (1, 0), ("free", "ub"), None, False, (0,)),
                 (2, 2, (0, 0), ("lb", "box"), None, False, ()), (2, 2, (1, 1), ("lb", "box"), "CI", False, ())]
     for nv, m, sense, kinds, vt, cones, empty in configs:
-        for status in (2, 3, 4, 5, 13):                           # GRB.OPTIMAL, INFEASIBLE, INF_OR_UNBD, UNBOUNDED, SUBOPTIMAL
+        for status in (2, 3, 4, 5, 13, 9, 10):                    # GRB.OPTIMAL, INFEASIBLE, INF_OR_UNBD, UNBOUNDED, SUBOPTIMAL, TIME_LIMIT, SOLUTION_LIMIT
             def setup(c, nv=nv, m=m, sense=sense, kinds=kinds, vt=vt, cones=cones, status=status, empty=empty):
                 F = sym_formula(c, nv, m, sense, kinds, vt, cones, empty=empty)
                 if cones:
